@@ -31,6 +31,93 @@ class SeqView(collections.abc.Sequence):
         return f"SeqView({self._items!r})"
 
 
+
+def run_interleaved(fa, fb, max_pauses=48, join_timeout=20.0, pick=0):
+    """Run ``fa()`` in this thread and, at chosen source lines *inside the library*, suspend it while another thread
+    runs ``fb()`` to completion (the harness owns the schedule: the pauses are taken from a line tracer, so a run is a
+    pure function of the code and of ``pick``).
+
+    A first traced run of ``fa`` lists the distinct (file, line) locations it executes in soundevent frames together
+    with the shallowest library depth they were seen at; the second run pauses at the first visit of up to
+    ``max_pauses`` of them (shallow ones first, the rest drawn by ``pick``).  Returns (result of the first run,
+    result of the interleaved run, list of fb results, number of pauses).  Exceptions of fa propagate; an exception in
+    fb is returned in place of its result.  A thread that does not finish within ``join_timeout`` is waited for after
+    fa ends and the probe reports no pauses (no verdict) - the library takes no locks today, so this is only a guard.
+    """
+    import sys
+    import threading
+
+    def is_lib(frame):
+        return "/soundevent/" in frame.f_code.co_filename.replace("\\", "/")
+
+    def depth_of(frame):
+        d = 0
+        while frame is not None:
+            if is_lib(frame):
+                d += 1
+            frame = frame.f_back
+        return d
+
+    seen = {}
+
+    def tracer_list(frame, event, arg):
+        if event == "line":
+            key = (frame.f_code.co_filename, frame.f_lineno)
+            if key not in seen:
+                seen[key] = (depth_of(frame), len(seen))
+        return tracer_list
+
+    def global_list(frame, event, arg):
+        return tracer_list if is_lib(frame) else None
+
+    old = sys.gettrace()
+    sys.settrace(global_list)
+    try:
+        first = fa()
+    finally:
+        sys.settrace(old)
+    order = sorted(seen, key=lambda k: (seen[k][0], (seen[k][1] * 2654435761 + pick * 40503) % 1000003))
+    chosen = set(order[:max_pauses])
+    fb_results = []
+    hung = []
+    threads = []
+
+    def run_b():
+        try:
+            fb_results.append(fb())
+        except BaseException as e:  # noqa: BLE001 - handed back to the caller
+            fb_results.append(e)
+
+    def tracer_pause(frame, event, arg):
+        if event == "line" and not hung:
+            key = (frame.f_code.co_filename, frame.f_lineno)
+            if key in chosen:
+                chosen.discard(key)
+                t = threading.Thread(target=run_b, daemon=True)
+                threads.append(t)
+                t.start()
+                t.join(join_timeout)
+                if t.is_alive():
+                    hung.append(key)
+        return tracer_pause
+
+    def global_pause(frame, event, arg):
+        return tracer_pause if is_lib(frame) else None
+
+    sys.settrace(global_pause)
+    try:
+        second = fa()
+    except Exception as e:  # noqa: BLE001 - the first run succeeded: handed back to the caller
+        second = e
+    finally:
+        sys.settrace(old)
+    for t in threads:
+        t.join()
+    if hung:
+        return first, second, [], 0
+    return first, second, fb_results, len(fb_results)
+
+
 class Violation(Exception):
     """The property under test was broken by the code under test."""
 
@@ -180,6 +267,32 @@ class Ctx:
         except Exception as e:  # noqa: BLE001 - the contract here is 'must not raise'
             self.fail(f"{what} raised {type(e).__name__}: {str(e)[:200]}", spec, repr(e)[:300], "a result", kind="raised")
             raise KnownSkip()
+
+    def interleave(self, spec, what, fa, fb, same=None, every=1, max_pauses=48):
+        """Schedule probe: ``fa()`` is suspended at source lines inside the library while another thread runs ``fb()``
+        (the same API on other arguments) to completion; both must return what they return when run alone."""
+        if every > 1 and spec_hash(spec) % every:
+            return False
+        same = same or (lambda x, y: x == y)
+        try:
+            rb = fb()
+        except Exception:  # noqa: BLE001 - the second call is only the stimulus: it must be one that succeeds alone
+            self.labels["interleave_skipped_stimulus_raises"] += 1
+            return False
+        ra, ra2, rbs, n = run_interleaved(fa, fb, max_pauses=max_pauses, pick=spec_hash(spec) % 9973)
+        if isinstance(ra2, BaseException):
+            self.fail(f"{what}: raised {type(ra2).__name__}: {str(ra2)[:160]} when another thread called the same function on other arguments while this call was suspended inside the library (the call alone succeeds)", spec, repr(ra2)[:300], short(jsonable(ra), 300), kind="not_reentrant")
+            return True
+        if not same(ra, ra2):
+            self.fail(f"{what}: the result differs when another thread calls the same function on other arguments while this call is suspended inside the library", spec, short(jsonable(ra2), 400), short(jsonable(ra), 400), kind="not_reentrant")
+        for r in rbs:
+            if isinstance(r, BaseException):
+                self.fail(f"{what}: the call made by the other thread raised {type(r).__name__}: {str(r)[:160]} (alone it succeeds)", spec, repr(r)[:300], short(jsonable(rb), 300), kind="not_reentrant")
+            elif not same(r, rb):
+                self.fail(f"{what}: the call made by the other thread while the first was suspended returns something else than it does alone", spec, short(jsonable(r), 400), short(jsonable(rb), 400), kind="not_reentrant")
+        self.labels["interleaved_schedule"] += 1
+        self.labels["interleaved_pauses"] += n
+        return True
 
     def unchanged(self, spec, what, before, obj):
         """Assert that `obj` still looks like its earlier snapshot `before` (inputs must not be modified)."""
